@@ -163,13 +163,13 @@ theorem no_replay_repaired (e : Env) (c : Chain) (hu : SigUnique e) (h1 : c.stri
     have hr₂ : isRlpMemo t₂.memo = false := by rw [hmemo]; exact hr₁
     have key (c' : Chain) (t : TxContent) (a : AnyC) (g g' : SigC) (s : SendC) (snd : Bytes)
         (hk : c'.strictKey = true) (hr : isRlpMemo t.memo = false)
-        (hb : checkBasic t = .ok (a, g)) (hsig : checkSignature e c'.strictKey t g s.fromAddr = .ok snd)
+        (hb : checkBasic t = .ok (a, g)) (hsig : checkSignature e c'.strictKey c'.strictPad t g s.fromAddr = .ok snd)
         (hg : t.signature = some g') : pkCanonical g'.publicKey = true := by
       have := (checkBasic_ok hb).2.1
       rw [this] at hg
       simp only [Option.some.injEq] at hg
       subst hg
-      obtain ⟨_, k, hd, hk', _⟩ := checkSignature_inv e _ t g _ _ hr hsig
+      obtain ⟨_, k, hd, hk', _⟩ := checkSignature_inv e _ _ t g _ _ hr hsig
       simp [pkCanonical, hd, hk' hk]
     have heq := same_bytes_of_same_signed e c₀ c raw₁ raw₂ hu hacc₀ hacc hs
       (fun t ht => by rw [f₁.dec] at ht; cases ht; exact f₁.canonical (hst₀.trans h1))
@@ -255,6 +255,50 @@ Ethereum transaction (and any other with a nonce up to it) is refused afterwards
 theorem nonce_floor_rises (c c' : Chain) (k : Checked) (hm : k.tx.memo = rlpV2Memo)
     (h : applyChecked c k = .ok c') : (c'.account k.sender).nonce = k.tx.nonce + 1 :=
   Replay.nonce_bumped c c' k hm h
+
+/-- the Ethereum-hash alias under which the indexer files an RLP-backed transaction and the hash
+`CheckReplay` looks up are the same function of the raw bytes — go-ethereum's `Transaction.Hash()`, which
+ignores the envelope (an EIP-4844 sidecar): the model's `Env.ethHash` / `indexedHashes` use one table for
+both. A hash of the raw envelope would make the network / canonical forms of one signed blob transaction
+distinct (oracle `C06:replay-by-eth-envelope-twin`). -/
+theorem eth_alias_src :
+    Gen.Proto.ethAliasReturns = ["return ethTx.Hash().Bytes()", "return tx.Hash().Bytes(), nil"] := by decide
+
+/-! ## multi-signature keys: the signer bitmap's padding
+
+A serialized `crypto.MultiPublicKey` pads its signer bitmap to whole bytes. The padding bits are
+outside the sign bytes, the address and the aggregation; while the parser accepts them raised, ANYONE
+can turn an included multi-signature transaction into another byte string with a valid signature
+(measured on the real code: oracle `C06:replay-by-multisig-bitmap-padding`). The model carries the
+repaired rule as `Chain.strictPad` (read from the source: `Gen.Proto.multisigPaddingEnforced`): -/
+
+/-- **the code is the repaired parser** (8c75cbd): `NewMultiBLSFromPublicKey` looks at the bits of the
+signer bitmap beyond the last key (fact regenerated from lib/crypto/bls.go; removing the test breaks this
+theorem, the drivers then run the model without the rule, and the Go oracle replays an included multisig
+send with a raised padding bit: `C06:replay-by-multisig-bitmap-padding`) -/
+theorem multisig_padding_src : Gen.Proto.multisigPaddingEnforced = true := by decide
+
+/-- an accepted transaction signed by a multi-signature key has, under the repaired parser, a bitmap of
+exactly ⌈n/8⌉ bytes whose padding bits are zero -/
+theorem accepted_multisig_key_unpadded (e : Env) (c : Chain) (raw : Bytes) (hp : c.strictPad = true)
+    (h : accepted e c raw = true) :
+    ∃ t g, decodeTx raw = some t ∧ t.signature = some g ∧
+      (isRlpMemo t.memo = false → ∀ k, pkDecode g.publicKey = some (.multi, k) → multiPadOk g.publicKey = true) := by
+  obtain ⟨t, a, g, s, snd, f⟩ := accepted_inv e c raw h
+  refine ⟨t, g, f.dec, (checkBasic_ok f.basic).2.1, fun hr k hk => ?_⟩
+  obtain ⟨sch, k', hd, _, _, _, _, hpad⟩ := checkSignature_inv e _ _ t g _ _ hr f.sig
+  rw [hk] at hd
+  simp only [Option.some.injEq, Prod.mk.injEq] at hd
+  exact hpad hp hd.1.symm
+
+/-- the rule on a miniature key (three one-byte "keys", threshold 2): bitmap `05` is a key, `0d`
+(padding bit 3 raised), `85` and a two-byte bitmap are not -/
+example :
+    multiPadOk [0x0a, 0x01, 0xaa, 0x0a, 0x01, 0xbb, 0x0a, 0x01, 0xcc, 0x12, 0x01, 0x05, 0x18, 0x02] = true ∧
+    multiPadOk [0x0a, 0x01, 0xaa, 0x0a, 0x01, 0xbb, 0x0a, 0x01, 0xcc, 0x12, 0x01, 0x0d, 0x18, 0x02] = false ∧
+    multiPadOk [0x0a, 0x01, 0xaa, 0x0a, 0x01, 0xbb, 0x0a, 0x01, 0xcc, 0x12, 0x01, 0x85, 0x18, 0x02] = false ∧
+    multiPadOk [0x0a, 0x01, 0xaa, 0x0a, 0x01, 0xbb, 0x0a, 0x01, 0xcc, 0x12, 0x02, 0x05, 0x00, 0x18, 0x02] = false := by
+  decide
 
 /-- every writer of an account nonce in fsm/*.go, and every `Account{…}` record built from scratch
 (regenerated from the source): the nonce is assigned in `ApplyTransaction` only (`UnmarshalJSON` copies
